@@ -6,6 +6,10 @@ Engines (crate engines/h_sock, std harness over /repo/tiny-std + /repo/rusl):
                  receiver compares every byte with f(seed, offset); an in-process monitor judges
                  "parked although the awaited readiness holds" from its own poll + /proc/<tid>/syscall
   xfer timeouts  *_with_timeout: a Timeout earlier than the limit (std Instant started before) refutes
+  xfer intr      a worker parked in ppoll inside accept/connect/read/write (+ timed variants) gets SIGUSR1
+                 (counting handler, no SA_RESTART) once or several times, then the peer acts: the call must
+                 not be over before that (EINTR surfaced), not time out early, and deliver intact data;
+                 one run under sysmon has the first ppoll answered with an injected -EINTR instead
   xfer tries     try_* calls between sysmon markers; the log must show no blocking system call inside
   fdpass         SCM_RIGHTS via rusl sendmsg/recvmsg: iterator output vs an independent walk of the same
                  control bytes, fstat identity, control buffer exact-size (ASan) / against a PROT_NONE page
@@ -22,7 +26,7 @@ import vlib
 CRATE = "engines/h_sock"
 FAMILY = "C16/cmsg-iter/end-of-buffer-test-uses-local-addresses"
 
-SAMPLE_QUOTA = {"transfer": 4, "fdpass": 3, "timeout": 3, "cmsg-pure": 1, "observation": 1}
+SAMPLE_QUOTA = {"transfer": 3, "fdpass": 3, "timeout": 2, "cmsg-pure": 1, "observation": 1, "interrupted-wait": 2}
 
 
 def setup():
@@ -281,6 +285,15 @@ def run(ck, replay=None):
     # --- timeouts
     add("timeouts debug", "plain", argv=[dbg + "/xfer", "timeouts", str(seed), "1" if quick else "6"], timeout=120 if quick else 600)
     add("timeouts release", "plain", argv=[rel + "/xfer", "timeouts", str(seed + 1), "1" if quick else "6"], timeout=120 if quick else 600)
+    # --- signals while parked in ppoll
+    for i in range(2 if quick else 8):
+        d, lab = (dbg, "debug") if i % 2 == 0 else (rel, "release")
+        add("intr %s %d" % (lab, i), "plain", argv=[d + "/xfer", "intr", str(seed * 17 + i), "2" if quick else "10"],
+            timeout=300 if quick else 1500)
+    ilog = os.path.join(tmp, "intr-inject.log")
+    add("intr with sysmon-injected EINTR", "injectlog", log=ilog,
+        argv=sl.sysmon_cmd(ilog, [rel + "/xfer", "intr", str(seed * 19), "1" if quick else "4", "inject"],
+                           timeout_s=300, idle_ms=0, sysmon=sysmon), timeout=400)
     add("edge observations", "plain", argv=[rel + "/xfer", "edge", str(seed), "1"], timeout=120)
     # --- try-variants under sysmon
     for i, (d, lab) in enumerate(((dbg, "debug"), (rel, "release"))):
@@ -331,6 +344,15 @@ def run(ck, replay=None):
             n = judge_try_log(ck, kw["log"])
             if ok and n:
                 ck.note_distinct("engine/tries-under-sysmon")
+        elif kind == "injectlog":
+            ok = fd.feed(res, label, expect_rc=(0, 3))
+            if os.path.exists(kw["log"]):
+                ninj = sum(1 for e in sl.parse(kw["log"]) if e.k == "S" and e.nr == sl.NR["ppoll"] and e.inj)
+                ck.count("ppoll_eintr_injected_by_sysmon", ninj)
+                if ok and ninj:
+                    ck.note_distinct("engine/intr-sysmon-injected-eintr")
+                elif ok:
+                    ck.note_inconclusive("%s: no ppoll was answered with the injected EINTR" % label)
         elif kind == "retrylog":
             fd.feed(res, label)
             if os.path.exists(kw["log"]):
@@ -347,11 +369,13 @@ def run(ck, replay=None):
     ck.exhaustive = False
     ck.assume("timeouts: only 'Timeout earlier than the requested limit' refutes; elapsed measured on std::time::Instant started before the call")
     ck.assume("'completes when the peer acts' is refuted only by state: harness poll shows the awaited readiness, /proc/<tid>/syscall shows the thread inside ppoll, call sequence number unchanged over 5 samples")
+    ck.assume("interrupted waits: a case counts only when the SIGUSR1 handler ran while /proc/<tid>/syscall showed the worker inside ppoll (or sysmon's log shows the injected -EINTR); 'before the peer acted' is judged by the harness's own order of actions")
     ck.assume("try-variants: judged from the sysmon log (entries and exits between markers); a ppoll with a finite timeout pointer cannot be valued from the log and is inconclusive")
     ck.assume("fd passing: expected output is an independent walk of control[0..msg_controllen] as the kernel left it; control buffers are 8-byte aligned as the C API requires")
     ck.assume("blocking connect returning EAGAIN/EALREADY while a backlog is full is recorded as an observation, not judged")
     return ("seeded transfers (transport x payload 0..8MiB x writer/reader chunk class x think-time x connect/accept/close order x write|write_all x read|read_exact|read_to_end, "
             "two threads and two processes, debug and release) with a position-dependent byte pattern checked at the receiver; *_with_timeout limits {0,1ms,50ms,1.1s,+seeded}; "
+            "SIGUSR1 (1 or 2..6, seeded offsets) into a worker parked in ppoll for accept/accept_with_timeout/connect/connect_with_timeout/read/read_with_timeout/write, peer acting afterwards or never (timed); "
             "every try_* variant in pending / not-pending / queue-full situations between sysmon markers; SCM_RIGHTS cases n in 0..253 x control size CMSG_SPACE(n)-{8,4,0}+{0,4,8,64} x fill {0xFF,0x00,stale header} x "
             "buffer placement {exact heap (ASan), PROT_NONE guard page, stack} x msghdr on stack|heap x SO_PASSCRED, compared with a reference walk of the same bytes and fstat identity; Miri on hand-built buffers; "
             "distinct = (transport, payload class, chunk classes, order, close, 2thr/2proc) + (n class, buffer class, fill, placement) + timeout (op, limit class) + try scenario cells")
